@@ -53,3 +53,47 @@ func VerifC13Sections() {
 		}
 	}
 }
+
+// VerifC13Parts: a multipart message whose first part is an embedded message (message/rfc822) and whose second part
+// is text, with arbitrary bytes inside the bodies: every section path is compared with the exact bytes it denotes
+// (RFC 3501 6.4.5: n.MIME = the part's own MIME header, n.HEADER / n.TEXT = header / body of the embedded message,
+// n = the part's body).
+func VerifC13Parts() {
+	g := vsymParam("g")
+	gap1 := vsymBytes("inner", g)
+	gap2 := vsymBytes("text", g)
+	for _, c := range append(append([]byte(nil), gap1...), gap2...) {
+		// the gaps are body text: no line breaks and no dashes, so that they cannot form header lines or delimiters
+		vsymAssume(c != '\n')
+		vsymAssume(c != '\r')
+		vsymAssume(c != '-')
+	}
+	top := "Content-Type: multipart/mixed; boundary=b\r\nSubject: outer\r\n\r\n"
+	mime1 := "Content-Type: message/rfc822\r\nX-Part: one\r\n\r\n"
+	hdr1 := "Subject: inner\r\nTo: a@b.c\r\n\r\n"
+	body1 := "inner body " + string(gap1)
+	mime2 := "Content-Type: text/plain\r\n\r\n"
+	body2 := "second " + string(gap2)
+	lit := []byte(top + "--b\r\n" + mime1 + hdr1 + body1 + "\r\n--b\r\n" + mime2 + body2 + "\r\n--b--\r\n")
+
+	want := func(sec command.BodySection, exp string, what string) {
+		got, err := fetchBodySection(sec, lit)
+		vsymAssert(err == nil, what+": section resolves")
+		if err != nil {
+			return
+		}
+		vsymAssert(string(got) == exp, what+": exactly the bytes the section denotes")
+	}
+	part := func(p []int, sec command.BodySection) command.BodySection {
+		return &command.BodySectionPart{Part: p, Section: sec}
+	}
+	want(&command.BodySectionHeader{}, top, "BODY[HEADER]")
+	want(part([]int{1}, nil), hdr1+body1, "BODY[1]")
+	want(part([]int{1}, &command.BodySectionMIME{}), mime1, "BODY[1.MIME]")
+	want(part([]int{1}, &command.BodySectionHeader{}), hdr1, "BODY[1.HEADER]")
+	want(part([]int{1}, &command.BodySectionText{}), body1, "BODY[1.TEXT]")
+	want(part([]int{1}, &command.BodySectionHeaderFields{Fields: []string{"To"}}), "To: a@b.c\r\n\r\n", "BODY[1.HEADER.FIELDS (To)]")
+	want(part([]int{2}, nil), body2, "BODY[2]")
+	want(part([]int{2}, &command.BodySectionMIME{}), mime2, "BODY[2.MIME]")
+	vsymCover("parts-checked")
+}
